@@ -763,6 +763,12 @@ impl Sim {
     pub fn tick(&mut self) {
         // idle expiry uses std::time::Instant: a real sleep well beyond the small timeout
         std::thread::sleep(std::time::Duration::from_millis(120));
+        self.ticks += 8; // the model clock counts units of 15 ms
+    }
+
+    /// 15 ms pass: less than the small idle timeout (40 ms)
+    pub fn small_tick(&mut self) {
+        std::thread::sleep(std::time::Duration::from_millis(15));
         self.ticks += 1;
     }
 
